@@ -202,8 +202,14 @@ Definition get_bag_of_identifiers (scalars : list (str * scalar_cfg)) : list str
   flat_map (fun kv => flat_map idents_of (cfg_type_names (snd kv))) scalars.
 
 Definition TMP_PREFIX : str := s "__tmp_".
-(** the value [make_local_type_names] stores for a schema name *)
-Definition local_name (bag : list str) (n : str) : str := if mem n bag then TMP_PREFIX ++ n else n.
+(** the words [make_local_type_names] adds to its bag (since /repo d4bb3a6): the keywords the printer
+    itself writes in type position *)
+Definition EMITTED_KEYWORDS : list str := [s "null"; s "undefined"; s "never"; s "unknown"].
+(** the value [make_local_type_names] stores for a schema name.  [bag] is the result of
+    [get_bag_of_identifiers] (the identifiers of the scalar mappings, kept in the context as [c_bag]);
+    the bag the Rust function consults is that set extended with [EMITTED_KEYWORDS] *)
+Definition local_name (bag : list str) (n : str) : str :=
+  if mem n bag || mem n EMITTED_KEYWORDS then TMP_PREFIX ++ n else n.
 
 Record ctx := mkCtx {
   c_opts : sopts; c_doc : tsdoc; c_target : target;
